@@ -233,10 +233,12 @@ def case_rewrite(case, ctx, rnd, mech, res):
     res['nontrivial'] = True
     cwd = os.getcwd()
     top = spec_a['circ']['name']
+    fname = rnd.choice(['model_rw.yaml', 'model_rw.yml'])         # both spellings of the extension are accepted
+    mech['rewrite_' + fname.rsplit('.', 1)[1]] = 1
     for tag, sp in (('first', spec_a), ('second', spec_b)):
         t_py, _ = build.build_python(sp)
         try:
-            t_py.to_yaml('model_rw.yaml')
+            t_py.to_yaml(fname)
             t_l = CircuitTemplate.from_yaml(f'{cwd}/model_rw/{top}')
         except Exception as e:
             res['spec'] = {'a': spec_a, 'b': spec_b}
